@@ -6,5 +6,6 @@ CONSTANTS Kinds <- AllKinds
   Damages <- AllDamages
   EOF_IS_BROKEN = FALSE
   TRIM_TWICE = TRUE
+  USED_HOISTED = FALSE
 INVARIANTS TypeOK StepsAgree DamageHarmless ScanReturns
 CHECK_DEADLOCK FALSE
